@@ -115,6 +115,10 @@ pub struct Case {
     /// multiply the FTRL features by this (large values saturate the predicted probabilities)
     #[serde(default)]
     pub x_scale: f64,
+    /// number of rows in one `predict` call (0 = the default dozen); above a thousand the
+    /// call spans any internal block size
+    #[serde(default)]
+    pub nq: usize,
     /// environment of process epoch e is envs[e % len]
     pub envs: Vec<Env>,
     pub storage_seed: u64,
@@ -200,7 +204,7 @@ pub fn make_data(c: &Case) -> Data {
             }
         }
     }
-    if c.learner == Learner::Ftrl && c.x_scale > 0.0 {
+    if matches!(c.learner, Learner::Ftrl | Learner::Gnb) && c.x_scale > 0.0 {
         x.mapv_inplace(|v| v * c.x_scale);
     }
     if c.f32 {
@@ -214,7 +218,7 @@ pub fn make_data(c: &Case) -> Data {
         batches.push((at, at + s));
         at += s;
     }
-    let m = 12.min(c.n);
+    let m = if c.nq > 0 { c.nq } else { 12.min(c.n) };
     let queries = Array2::from_shape_fn((m, c.d), |(i, j)| {
         let v = x[[(i * 7) % c.n, j]];
         if i % 2 == 0 || c.learner == Learner::Mnb {
@@ -1337,7 +1341,8 @@ fn fault_env(r: &mut Prng, pool: bool) -> Env {
 
 pub fn gen_case(r: &mut Prng, learner: Learner, big: bool) -> Case {
     let k = if matches!(learner, Learner::Gnb | Learner::Mnb) && r.chance(0.05) { 1 } else { r.usize_in(2, if learner == Learner::KMeans { 4 } else { 6 }) };
-    let d = r.usize_in(1, 8);
+    // one naive-Bayes history in ten is wide (text-like data: dozens to hundreds of features)
+    let d = if matches!(learner, Learner::Gnb | Learner::Mnb) && r.chance(0.1) { *r.pick(&[40usize, 120, 400]) } else { r.usize_in(1, 8) };
     // every eighth k-means history has batches of several hundred rows (parallel loops split)
     let huge = learner == Learner::KMeans && r.chance(0.125);
     let n = match learner {
@@ -1445,7 +1450,15 @@ pub fn gen_case(r: &mut Prng, learner: Learner, big: bool) -> Case {
         f32: false,
         colmajor: r.chance(0.25),
         strided: r.chance(0.2),
-        x_scale: if learner == Learner::Ftrl && r.chance(0.3) { *r.pick(&[8.0, 30.0, 100.0]) } else { 0.0 },
+        x_scale: if learner == Learner::Ftrl && r.chance(0.3) {
+            *r.pick(&[8.0, 30.0, 100.0])
+        } else if learner == Learner::Gnb && r.chance(0.3) {
+            // features in other units: variances of 1e-3 or 1e3 instead of 1
+            *r.pick(&[0.03, 30.0])
+        } else {
+            0.0
+        },
+        nq: if r.chance(0.08) { r.usize_in(1025, 2300) } else { 0 },
     }
     .with_precision(r, learner)
 }
@@ -1564,6 +1577,16 @@ fn shrink_candidates(c: &Case) -> Vec<Case> {
     if c.string_labels {
         let mut d = c.clone();
         d.string_labels = false;
+        v.push(d);
+    }
+    if c.nq > 0 {
+        let mut d = c.clone();
+        d.nq = 0;
+        v.push(d);
+    }
+    if c.x_scale != 0.0 {
+        let mut d = c.clone();
+        d.x_scale = 0.0;
         v.push(d);
     }
     v
